@@ -158,7 +158,24 @@ func (r *Run) mapFind(m *MapObj, key Value) int {
 	return cands[ch]
 }
 
+// mapAccess records a read or write of the map as one location for the race detector.
+func (r *Run) mapAccess(m *MapObj, write bool) {
+	if r.nthreads <= 1 || m == nil {
+		return
+	}
+	if r.mapLocs == nil {
+		r.mapLocs = map[*MapObj]*Agg{}
+	}
+	a := r.mapLocs[m]
+	if a == nil {
+		a = &Agg{ID: m.ID, E: make([]Value, 1)}
+		r.mapLocs[m] = a
+	}
+	r.recordAccess(a, 0, write)
+}
+
 func (r *Run) mapLookup(m *MapObj, key Value) (Value, bool) {
+	r.mapAccess(m, false)
 	m = r.mapRd(m)
 	i := r.mapFind(m, key)
 	if i < 0 {
@@ -171,6 +188,7 @@ func (r *Run) mapUpdate(m *MapObj, key, val Value) {
 	if m == nil {
 		panic(r.fault("assignment to entry in nil map", ""))
 	}
+	r.mapAccess(m, true)
 	i := r.mapFind(r.mapRd(m), key)
 	m = r.mapWr(m)
 	if i >= 0 {
@@ -193,6 +211,7 @@ func (r *Run) mapDelete(m *MapObj, key Value) {
 	if m == nil {
 		return
 	}
+	r.mapAccess(m, true)
 	i := r.mapFind(r.mapRd(m), key)
 	if i < 0 {
 		return
@@ -215,6 +234,7 @@ func (r *Run) mapDelete(m *MapObj, key Value) {
 }
 
 func (r *Run) mapLen(m *MapObj) int {
+	r.mapAccess(m, false)
 	m = r.mapRd(m)
 	if m == nil {
 		return 0
@@ -232,6 +252,7 @@ type mapIter struct {
 
 // next returns the next live entry of the iteration, or ok=false at the end.
 func (r *Run) mapNext(it *mapIter) (k, v Value, ok bool) {
+	r.mapAccess(it.m, false)
 	m := r.mapRd(it.m)
 	for it.pos < len(it.eids) {
 		e := it.eids[it.pos]
